@@ -278,6 +278,10 @@ func mergeCustomObjectFields(aTypes, bTypes map[string]*ast.Definition, a, b *as
 
 		rf := result.ForName(f.Name)
 		isOverlappinggMap[i] = rf != nil
+		// a field declared by both services must be the same field
+		if rf != nil && !isSameFieldSignature(rf, f) {
+			return nil, fmt.Errorf("overlapping fields with different signatures %s : %s", a.Name, f.Name)
+		}
 		result = append(result, f)
 	}
 
@@ -311,6 +315,26 @@ func mergeCustomObjectFields(aTypes, bTypes map[string]*ast.Definition, a, b *as
 	}
 
 	return result, nil
+}
+
+// isSameFieldSignature compares result type and arguments (names, types, default values)
+func isSameFieldSignature(a, b *ast.FieldDefinition) bool {
+	if a.Type.String() != b.Type.String() || len(a.Arguments) != len(b.Arguments) {
+		return false
+	}
+	for _, aa := range a.Arguments {
+		ba := b.Arguments.ForName(aa.Name)
+		if ba == nil || aa.Type.String() != ba.Type.String() {
+			return false
+		}
+		if (aa.DefaultValue == nil) != (ba.DefaultValue == nil) {
+			return false
+		}
+		if aa.DefaultValue != nil && aa.DefaultValue.String() != ba.DefaultValue.String() {
+			return false
+		}
+	}
+	return true
 }
 
 func mergeableFields(t *ast.Definition) ast.FieldList {
